@@ -265,7 +265,7 @@ def verus_property(pid, prop, tier, seed, out, work):
     cov["clause_counts"] = clause_counts
     cov["extraction"] = dict(rules_applied=ex.counts, source_sha256={ex.functions[k]["qual"]: ex.functions[k]["sha256"][:16] for k in sorted(fns)},
                              file_sha256={f: h[:16] for f, h in ex.file_sha.items()},
-                             not_under_contract=sorted(set(ex.dropped)) + ["datetime/find.rs (whole file)", "parse/* (whole directory)", "utils/system_time.rs", "all Display / Error / From trait impls", "#[cfg(test)] modules"])
+                             not_under_contract=sorted(set(ex.dropped)) + ["parse/* (whole directory)", "utils/system_time.rs", "all Display / Error / From trait impls except From<DateTimeError> for TzError", "#[cfg(test)] modules"])
     cov["exhaustive"] = False
     cov["solver_retries"] = retries
     # failures
@@ -307,6 +307,22 @@ def verus_property(pid, prop, tier, seed, out, work):
             else:
                 keep.append(f)
         real = keep
+    else:
+        # C07 is about panics, overflow, bounds and termination.  A failed functional obligation (postcondition, assertion,
+        # invariant, lemma precondition) is the subject of the property owning that contract; here it only means that the
+        # safety proofs of code relying on that contract are not established: undecided, not a C07 violation.
+        keep = []
+        for f in real:
+            functional = f["kind"] in ("post", "assert", "inv-init", "inv-end", "inv", "loop-ensures", "recommends") or (
+                f["kind"] == "pre-of" and re.search(r"\b(lemma_|prop_|axiom_|compose_)", f.get("rendered", "")))
+            # ...except in constructors / validators: their contracts establish the type invariants (field ranges, index bounds)
+            # that the no-panic proofs of every other function assume, so a constructor that no longer establishes its
+            # postcondition does break C07's argument
+            if functional and not re.search(r"(::new|::check_inputs)$", f["function"]):
+                out.undecided.append("functional obligation %s not discharged (decided under the property owning that contract; the safety of code relying on it is not established)" % verus_run.obligation_name(f))
+            else:
+                keep.append(f)
+        real = keep
     out.verus_failures = real
     out.lemma_names = proof_names
     # assumption scan
@@ -314,7 +330,7 @@ def verus_property(pid, prop, tier, seed, out, work):
     alist, bad = check_assumptions(found, text)
     out.evidence["assumptions"] = alist + [
         "machine integers: exec arithmetic is checked against overflow in the i64/i128/usize types actually used; spec arithmetic is mathematical",
-        "extraction rules R1-R7 preserve meaning (counts under coverage.extraction.rules_applied; fidelity self-check passed on this run)",
+        "extraction rules R1-R12 preserve meaning (counts under coverage.extraction.rules_applied; fidelity self-check passed on this run)",
         "Verus, Z3, rustc are correct; termination is proved by Verus only",
         "type-invariant meta-argument: values of private-field types only arise from the verified constructors",
         "default feature set (alloc+std resolved as on); 64-bit target",
@@ -477,7 +493,7 @@ def main():
     cov.setdefault("obligations", 0)
     cov.setdefault("discharged", 0)
     cov.setdefault("checker_cmd", "")
-    cov["trusted_base"] = prop.get("trusted_base", []) + (["verus 0.2026.09.13 / z3", "rustc", "extraction rules R1-R7 (tools/extract.py)", "spec library spec/*.rs (definitions)"] if prop.get("verus", True) else ["rustc"])
+    cov["trusted_base"] = prop.get("trusted_base", []) + (["verus 0.2026.09.13 / z3", "rustc", "extraction rules R1-R12 (tools/extract.py)", "spec library spec/*.rs (definitions)"] if prop.get("verus", True) else ["rustc"])
     if cov.get("concrete_cross_validation"):
         cov["trusted_base"].append("executable oracle replaykit/src/oracle.rs (used only to refute, never to pass)")
     cov["known_findings_reproduced"] = out.known
